@@ -105,6 +105,13 @@ def nondet_int_of_text(src, lo, hi, L):
             key = k
             break
     if key is None:
+        # the same characters read again at an offset that is only semantically equal: same outcome (decided by the solver; may fork)
+        for k in list(src.ints):
+            if not (isinstance(k[0], int) and isinstance(lo, int)):
+                if s_and(s_eq(k[0], lo), s_eq(k[1], hi)):
+                    key = k
+                    break
+    if key is None:
         ex = core.cur()
         ok = ex.fresh_bool('int_ok_%s' % src.name)
         val = ex.fresh_int('int_val_%s' % src.name, named=True)
